@@ -22,7 +22,7 @@ Proof. simpl. rewrite dict_of_items_to_list. auto. Qed.
 Lemma from_tuple_float_refuted :
   ∃ r o, obj_wf r o ∧ from_tuple_float (o_kind o) r (to_tuple o) ≠ o.
 Proof.
-  exists (SReg 1 NFraction ∅ [] [] []), (PObj KQuantity (Some (MInt 3)) (mk_ucont ∅ NFraction) 1).
+  exists (SReg 1 NFraction ∅ [] [] [] [] true), (PObj KQuantity (Some (MInt 3)) (mk_ucont ∅ NFraction) 1).
   split; [repeat split|]. vm_compute. discriminate.
 Qed.
 
@@ -48,72 +48,90 @@ Proof.
     + apply Ascii.eqb_neq in E. split; [discriminate|]. intros [= ? ?]. congruence.
 Qed.
 
-Lemma resolve1_defined r n : is_Some (r_units r !! n) → resolve1 r n = SOk None.
+Lemma resolve1_defined r n : is_lazy r n = false → is_Some (r_units r !! n) → resolve1 r n = SOk None.
 Proof.
-  intros [c H]. unfold resolve1. destruct (String.eqb n "dimensionless"); [reflexivity|].
-  rewrite H. reflexivity.
+  intros Hl [c H]. unfold resolve1, direct. destruct (String.eqb n "dimensionless"); [reflexivity|].
+  rewrite Hl, H. reflexivity.
 Qed.
 (** the only errors are "this very name is undefined" and the offset-prefix refusal *)
 Lemma resolve1_err r n e : resolve1 r n = SErr e → e = EUndefinedUnit n ∨ e = EOffsetCalc.
 Proof.
   unfold resolve1. destruct (String.eqb n "dimensionless"); [discriminate|].
-  destruct (r_units r !! n); [discriminate|].
+  destruct (direct r n); [discriminate|].
   destruct (first_cand (cands r n)) as [[p u]|]; [|intros [= <-]; auto].
   destruct (String.eqb p ""); [discriminate|].
-  destruct (existsb _ _); [intros [= <-]; auto|discriminate].
+  destruct (existsb _ _); [intros [= <-]; auto|]. destruct (_ && _); discriminate.
 Qed.
-(** UndefinedUnit exactly when the name is neither defined nor decomposable *)
+(** UndefinedUnit exactly when the name is neither a spelling nor decomposable *)
 Lemma resolve1_undefined_iff r n :
   resolve1 r n = SErr (EUndefinedUnit n) ↔
-  n ≠ "dimensionless" ∧ r_units r !! n = None ∧ first_cand (cands r n) = None.
+  n ≠ "dimensionless" ∧ direct r n = None ∧ first_cand (cands r n) = None.
 Proof.
   unfold resolve1. destruct (String.eqb n "dimensionless") eqn:E.
   - apply String.eqb_eq in E. split; [discriminate|]. intros (H & _); contradiction.
-  - apply String.eqb_neq in E. destruct (r_units r !! n).
+  - apply String.eqb_neq in E. destruct (direct r n).
     + split; [discriminate|]. intros (_ & ? & _); discriminate.
     + destruct (first_cand (cands r n)) as [[p u]|].
       * split; [|intros (_ & _ & ?); discriminate].
-        destruct (String.eqb p ""); [discriminate|]. destruct (existsb _ _); discriminate.
+        destruct (String.eqb p ""); [discriminate|]. destruct (existsb _ _); [discriminate|].
+        destruct (_ && _); discriminate.
       * split; auto.
 Qed.
 
-(** every candidate is (name of a prefix that heads the spelling, canonical name of a defined unit) *)
+(** every candidate is (name of a prefix that heads the spelling, canonical name of a defined unit
+    that was not itself written by lazy registration) *)
 Lemma cands_spec r n p u :
   (p, u) ∈ cands r n →
-  ∃ ps rest name, (ps, p) ∈ r_prefixes r ∧ n = ps ++ rest ∧ r_units r !! name = Some u.
+  ∃ ps rest name, (ps, p) ∈ r_prefixes r ∧ n = ps ++ rest ∧ r_units r !! name = Some u ∧ is_lazy r name = false.
 Proof.
   unfold cands. intros H. apply elem_of_list_In, in_flat_map in H as (suf & _ & H).
   apply in_flat_map in H as ([ps p'] & Hp & H). simpl in H.
   destruct (strip_prefix ps n) as [rest|] eqn:Es; [|destruct H].
   destruct (negb (ends_with suf n)); [destruct H|].
   destruct (negb (String.eqb suf "") && _); [destruct H|].
+  match type of H with context [is_lazy r ?nm] => destruct (is_lazy r nm) eqn:Ez; [destruct H|] end.
   match type of H with context [r_units r !! ?nm] => destruct (r_units r !! nm) as [c|] eqn:El; [|destruct H] end.
   destruct H as [[= <- <-]|[]].
-  apply strip_prefix_spec in Es. apply elem_of_list_In in Hp. eauto 8.
+  apply strip_prefix_spec in Es. apply elem_of_list_In in Hp. eauto 10.
 Qed.
 Lemma first_cand_in cs c : first_cand cs = Some c → c ∈ cs.
 Proof. unfold first_cand. intros H. apply find_some in H as [H _]. apply elem_of_list_In. exact H. Qed.
 
-(** a registration writes [prefix name ++ canonical unit name] for a name that was not defined *)
+(** a registration writes [prefix name ++ canonical unit name] for a name that is not a spelling *)
 Definition prefixed_key (r : sreg) (n k : string) : Prop :=
-  r_units r !! n = None ∧
+  direct r n = None ∧
   ∃ ps p rest name u, (ps, p) ∈ r_prefixes r ∧ p ≠ "" ∧ n = ps ++ rest ∧
-                      r_units r !! name = Some u ∧ k = p ++ u.
+                      r_units r !! name = Some u ∧ is_lazy r name = false ∧ k = p ++ u.
 Lemma resolve1_registers r n k : resolve1 r n = SOk (Some k) → prefixed_key r n k.
 Proof.
   unfold resolve1. destruct (String.eqb n "dimensionless"); [discriminate|].
-  destruct (r_units r !! n) eqn:En; [discriminate|].
+  destruct (direct r n) eqn:En; [discriminate|].
   destruct (first_cand (cands r n)) as [[p u]|] eqn:Ef; [|discriminate].
   destruct (String.eqb p "") eqn:Ep; [discriminate|].
-  destruct (existsb _ _); [discriminate|]. intros [= <-].
-  apply first_cand_in, cands_spec in Ef as (ps & rest & name & H1 & H2 & H3).
-  apply String.eqb_neq in Ep. split; [exact En|]. eauto 12.
+  destruct (existsb _ _); [discriminate|]. destruct (_ && _); [discriminate|]. intros [= <-].
+  apply first_cand_in, cands_spec in Ef as (ps & rest & name & H1 & H2 & H3 & H4).
+  apply String.eqb_neq in Ep. split; [exact En|]. eauto 14.
 Qed.
+(** with [_lazy_units] kept (the repaired pint) a key is written at most once *)
+Lemma resolve1_registers_fresh r n k :
+  r_tracks r = true → resolve1 r n = SOk (Some k) → r_units r !! k = None.
+Proof.
+  intros Ht. unfold resolve1. destruct (String.eqb n "dimensionless"); [discriminate|].
+  destruct (direct r n); [discriminate|].
+  destruct (first_cand (cands r n)) as [[p u]|]; [|discriminate].
+  destruct (String.eqb p ""); [discriminate|]. destruct (existsb _ _); [discriminate|].
+  rewrite Ht. simpl. destruct (bool_decide (is_Some (r_units r !! (p ++ u)))) eqn:E; [discriminate|].
+  intros [= <-]. apply bool_decide_eq_false in E. destruct (r_units r !! (p ++ u)); [exfalso; eauto|reflexivity].
+Qed.
+(** … and a lazily written name is never the stem of a further prefix (no [millikiloinch]) *)
+Lemma cands_skip_lazy r n p u :
+  (p, u) ∈ cands r n → ∃ nm, r_units r !! nm = Some u ∧ is_lazy r nm = false.
+Proof. intros H. apply cands_spec in H as (? & ? & nm & _ & _ & ? & ?). eauto. Qed.
 
 Lemma register_fields k r :
   r_id (register k r) = r_id r ∧ r_nit (register k r) = r_nit r ∧ r_prefixes (register k r) = r_prefixes r
   ∧ r_suffixes (register k r) = r_suffixes r ∧ r_nonmult (register k r) = r_nonmult r
-  ∧ r_units (register k r) = <[k := k]> (r_units r).
+  ∧ r_units (register k r) = <[k := k]> (r_units r) ∧ r_tracks (register k r) = r_tracks r.
 Proof. repeat split. Qed.
 
 (** the sequence of intermediate registries: what [register_all] threads through *)
@@ -182,7 +200,7 @@ Proof.
         rewrite lookup_insert_ne by exact N. exact Hx.
 Qed.
 Lemma register_all_defined r ns :
-  (∀ n, n ∈ ns → is_Some (r_units r !! n)) → register_all r ns = SOk (r, []).
+  (∀ n, n ∈ ns → is_lazy r n = false ∧ is_Some (r_units r !! n)) → register_all r ns = SOk (r, []).
 Proof.
   induction ns as [|n ns IH]; intros H; simpl; [reflexivity|].
   unfold reg_get_name. rewrite resolve1_defined by (apply H; left).
@@ -465,7 +483,7 @@ Qed.
 Definition ex_app : sreg :=
   SReg 7 NFloat (list_to_map [("inch", "inch"); ("in", "inch"); ("fortnight", "fortnight");
                               ("degree_Celsius", "degree_Celsius")])
-       [("", ""); ("kilo", "kilo"); ("k", "kilo"); ("micro", "micro")] [""; "s"] ["degree_Celsius"].
+       [("", ""); ("kilo", "kilo"); ("k", "kilo"); ("micro", "micro")] [""; "s"] ["degree_Celsius"] [] true.
 Definition ex_q : pobj :=
   PObj KQuantity (Some (MInt 3))
        (mk_ucont (mkuc [("kiloinch", mkq 1 1); ("microfortnight", mkq (-1) 1)]) NFloat) 1.
